@@ -7,6 +7,7 @@
 
 #include <pthread.h>
 #include <unordered_map>
+#include <vector>
 
 extern "C" {
 int __real_pthread_create(pthread_t *, const pthread_attr_t *, void *(*)(void *), void *);
@@ -25,6 +26,13 @@ namespace sim {
 struct MutexState { long index; bool locked; int owner; };
 static std::unordered_map<void *, MutexState> g_mutexes;  // never iterated
 static long g_next_mutex = 0;
+static std::vector<int> g_held;  // per task
+static void held_add(int task, int d) {
+  if (task < 0) return;
+  if ((size_t)task >= g_held.size()) g_held.resize((size_t)task + 16, 0);
+  g_held[(size_t)task] += d;
+}
+int mutexes_held(int task) { return task >= 0 && (size_t)task < g_held.size() ? g_held[(size_t)task] : 0; }
 static MutexObs g_obsv;
 static MutexObs *g_obs = &g_obsv;
 MutexObs &mutex_obs() { return g_obsv; }
@@ -32,6 +40,7 @@ static MutexObserver g_mobs;
 
 void pthread_layer_reset() {
   g_mutexes.clear();
+  g_held.assign(64, 0);
   g_next_mutex = 0;
   g_obsv = MutexObs();
   g_mobs = nullptr;
@@ -53,6 +62,7 @@ extern "C" {
 
 int __wrap_pthread_create(pthread_t *th, const pthread_attr_t *attr, void *(*fn)(void *), void *arg) {
   if (!active()) return __real_pthread_create(th, attr, fn, arg);
+  sim::Harness harness_scope;
   int id = spawn_task([fn, arg] { fn(arg); }, self_proc(), "thread");
   *th = (pthread_t)(id + 1);
   event(K_CREATE, id, 0);
@@ -68,6 +78,7 @@ pthread_t __wrap_pthread_self(void) {
 
 int __wrap_pthread_join(pthread_t th, void **ret) {
   if (!active()) return __real_pthread_join(th, ret);
+  sim::Harness harness_scope;
   int id = (int)th - 1;
   if (id < 0 || id >= n_tasks()) return 3;  // ESRCH
   join_task(id);
@@ -82,6 +93,7 @@ void __wrap_pthread_exit(void *r) {
 
 int __wrap_pthread_mutex_init(pthread_mutex_t *m, const pthread_mutexattr_t *a) {
   if (!active()) return __real_pthread_mutex_init(m, a);
+  sim::Harness harness_scope;
   g_mutexes.erase(m);
   MutexState &s = mstate(m);
   event(K_MINIT, s.index, 0);
@@ -90,6 +102,7 @@ int __wrap_pthread_mutex_init(pthread_mutex_t *m, const pthread_mutexattr_t *a) 
 
 int __wrap_pthread_mutex_destroy(pthread_mutex_t *m) {
   if (!active()) return __real_pthread_mutex_destroy(m);
+  sim::Harness harness_scope;
   auto it = g_mutexes.find(m);
   if (it != g_mutexes.end()) {
     if (it->second.locked && g_obs) g_obs->destroy_while_locked++;
@@ -101,6 +114,7 @@ int __wrap_pthread_mutex_destroy(pthread_mutex_t *m) {
 
 int __wrap_pthread_mutex_lock(pthread_mutex_t *m) {
   if (!active()) return __real_pthread_mutex_lock(m);
+  sim::Harness harness_scope;
   long idx = mstate(m).index;
   if (g_mobs) g_mobs(0, idx, self());
   point(K_MLOCK, idx);
@@ -109,6 +123,7 @@ int __wrap_pthread_mutex_lock(pthread_mutex_t *m) {
     if (!s.locked) {
       s.locked = true;
       s.owner = self();
+      held_add(s.owner, 1);
       break;
     }
     if (s.owner == self() && g_obs) g_obs->relock_by_owner++;  // blocks for good unless another task unlocks (the token ring relies on this)
@@ -121,12 +136,14 @@ int __wrap_pthread_mutex_lock(pthread_mutex_t *m) {
 
 int __wrap_pthread_mutex_trylock(pthread_mutex_t *m) {
   if (!active()) return __real_pthread_mutex_trylock(m);
+  sim::Harness harness_scope;
   long idx = mstate(m).index;
   point(K_MLOCK, idx);
   MutexState &s = mstate(m);
   if (s.locked) return 16;  // EBUSY
   s.locked = true;
   s.owner = self();
+  held_add(s.owner, 1);
   event(K_MLOCKED, idx, 1);
   if (g_mobs) g_mobs(1, idx, self());
   return 0;
@@ -134,6 +151,7 @@ int __wrap_pthread_mutex_trylock(pthread_mutex_t *m) {
 
 int __wrap_pthread_mutex_unlock(pthread_mutex_t *m) {
   if (!active()) return __real_pthread_mutex_unlock(m);
+  sim::Harness harness_scope;
   MutexState &s = mstate(m);
   long idx = s.index;
   if (g_obs) {
@@ -141,6 +159,7 @@ int __wrap_pthread_mutex_unlock(pthread_mutex_t *m) {
     else if (s.owner != self()) g_obs->unlock_by_non_owner++;
   }
   if (g_mobs) g_mobs(2, idx, self());
+  if (s.locked) held_add(s.owner, -1);
   s.locked = false;
   s.owner = -1;
   event(K_MUNLOCK, idx, 0);
